@@ -51,6 +51,9 @@ def main():
         caught = {p: v for p, v in res.items() if v['exit'] == 1}
         own = sid[:3]
         meta = json.load(open(os.path.join(VERIF, 'seeded', sid, 'meta.json')))
+        if meta.get('status') == 'open':
+            print('{}: OPEN (confirmed harmful, recorded as not reported) -> {}'.format(sid, 'now reported by ' + str(sorted(caught)) if caught else 'still not reported by any check' if all(v['exit'] == 0 for v in res.values()) else 'own check exit ' + str(res[own]['exit'])))
+            continue
         if meta.get('status') == 'retired':
             print('{}: retired (no longer demonstrated on the repaired tree) -> checker {}'.format(sid, 'reports ' + str(sorted(caught)) if caught else 'silent'))
             continue
